@@ -4,14 +4,14 @@ ALLF = '{"unkMsg", "unkAck", "tgtSendFail", "srcSendFail", "openFail"}'
 
 
 def cfg(name, k=2, srcends='{"eof", "err"}', iniends='{"closesend", "cancel"}', faults=ALLF, lifetime="TRUE", post="TRUE",
-        syncs="{TRUE, FALSE}", srckinds='{"coop", "silent"}', race="TRUE", latchmsg="TRUE", latchack="TRUE", closesend="TRUE", cancel="TRUE", wake="TRUE",
+        syncs="{TRUE, FALSE}", srckinds='{"coop", "silent"}', race="TRUE", latchmsg="TRUE", latchack="TRUE", closesend="TRUE", cancel="TRUE", wake="TRUE", netcap=0, hto="FALSE",
         invs="InOrder NoUnknownForwarded NoStuck EveryScriptEnds", props=None, sim=False):
     out = "INIT SimInit\nNEXT SimNext\n" if sim else "SPECIFICATION Spec\n"
     out += "CONSTANTS\n  K = %d\n  SrcEnds = %s\n  IniEnds = %s\n  Faults = %s\n  Lifetime = %s\n  Post = %s\n  Syncs = %s\n  SrcKinds = %s\n" % (
         k, srcends, iniends, faults, lifetime, post, syncs, srckinds)
     if not sim:
-        out += "  RaceHandoff = %s\n  LatchMsg = %s\n  LatchAck = %s\n  CloseSendOnExit = %s\n  CancelOnReturn = %s\n  FmsgWakesOnLatch = %s\n" % (
-            race, latchmsg, latchack, closesend, cancel, wake)
+        out += "  RaceHandoff = %s\n  LatchMsg = %s\n  LatchAck = %s\n  CloseSendOnExit = %s\n  CancelOnReturn = %s\n  FmsgWakesOnLatch = %s\n  NetCap = %d\n  HandoffTimeout = %s\n" % (
+            race, latchmsg, latchack, closesend, cancel, wake, netcap, hto)
         if invs:
             out += "INVARIANTS %s\n" % invs
         if props:
@@ -38,6 +38,12 @@ cfg("mut_noclosesend_nocancel", k=1, closesend="FALSE", cancel="FALSE")    # hol
 cfg("mut_nolatchack_noclosesend", k=1, latchack="FALSE", closesend="FALSE")   # violated
 cfg("mut_nowake", k=1, wake="FALSE")                   # violated with a silent source: Fmsg only ranges over the data channel
 cfg("mut_nowake_coop", k=1, wake="FALSE", srckinds='{"coop"}')   # holds: a cooperative source hides it
+# back-pressure: a Send of the proxy waits while one message is in flight towards that peer
+cfg("fwd_bp", k=2, netcap=1, syncs="{TRUE}")          # both tiers
+cfg("fwd_bp_race", k=2, netcap=1, syncs="{FALSE}", faults="{}", post="FALSE")    # thorough
+cfg("fwd_bp_live", k=1, netcap=1, post="FALSE", faults='{"unkMsg", "tgtSendFail", "srcSendFail"}', invs=None, props="EndTogether Complete")
+cfg("mut_handofftimeout", k=2, hto="TRUE", syncs="{FALSE}", faults="{}", post="FALSE", invs="InOrder")     # violated: a value lost in the middle
+cfg("mut_handofftimeout_sync", k=1, hto="TRUE", syncs="{TRUE}", faults="{}", post="FALSE", invs="NoStuck")   # violated: the barrier never passes
 # generator
 cfg("sim_q", k=2, sim=True)
 cfg("sim_t", k=3, sim=True)
